@@ -191,6 +191,22 @@ def judge_listing(kind, L, pattern):
     code, out_lines, exc = run_cli(blob, ['traces', '--no-color'])
     if code != 0 or exc is not None or len(out_lines) != len(ref) or not all(l.endswith(r) for l, r in zip(out_lines, ref)):
         return [('command-line-line-does-not-end-with-the-text', {'exit': code, 'error': repr(exc)[:120], 'lines': out_lines[:2], 'text': ref[:2]})]
+    if kind == 'lookup':
+        # an enclosing call asked for by class / subclass, together with OTHER file-system subclasses (the fs_usage view): it still shows
+        # the looked-up path (the lookups are read for the decoders whether or not they are listed themselves)
+        call = [B.rec(1, (1, 0, 0, 0), 1, E.n2i('BSC_open') | 1)] + [B.rec(2 + i, tid=1, debugid=e.debugid, data=e.data) for i, e in enumerate(evs)] + \
+               [B.rec(90, (0, 3, 0, 0), 1, E.n2i('BSC_open') | 2)]
+        cblob = B.v2([(1, 10, 'p')], 0, call)
+        for cl, sc in (([4], []), ([4], [0x0302]), ([], [0x040c, 0x030a]), ([4], [0x0303, 0x0701]), ([4, 3], [0x0302])):
+            f = PyKdebugParser()
+            f.color = False
+            f.filter_class, f.filter_subclass = cl, sc
+            try:
+                opens = [x for x in f.formatted_traces(io.BytesIO(cblob), dict(E.codes())) if 'open(' in x]
+            except Exception as ex:
+                return [('listing-raised:' + type(ex).__name__, {'error': repr(ex)[:200], 'len': L, 'classes': cl, 'subclasses': sc})]
+            if len(opens) != 1 or f'open("{txt}",' not in opens[0]:
+                return [('path-argument-differs-from-lookup:under-class-and-subclass-filters', {'classes': cl, 'subclasses': sc, 'lines': opens[:2], 'path': txt})]
     for color in ((False, True) if pattern != 8 else (False,)):
         f = PyKdebugParser()
         f.color = color
